@@ -25,7 +25,7 @@ meta = {
    "demo_fails_with_change": "FAIL" in log.split("demo WITH change")[-1].split("full suite")[0],
    "suite_failures_with_change": sum(1 for l in log.split("full suite WITH change")[-1].splitlines() if l.startswith("FAIL") or l.startswith("--- FAIL")),
  },
- "checks_run": f"git -C /repo apply patch.diff; VERIF_BUDGET_S=12..60 ./check <ID> quick (tools/try_mutation.sh); git -C /repo checkout -- .",
+ "checks_run": "tools/try_scratch.sh <worktree> <budget> <ID> (patch applied in the scratch worktree, quick check run against it through VERIF_REPO) and/or tools/try_mutation.sh (git -C /repo apply patch.diff; ./check <ID> quick; git -C /repo checkout -- .)",
  "caught_by": caught,
  "base_commit": subprocess.run(["git","-C","/repo","rev-parse","--short","HEAD"],capture_output=True,text=True).stdout.strip(),
 }
